@@ -558,7 +558,7 @@ static void mode_lobpcg(const Desc& d)
                     asc = 0;
                 qd.push_back(q(std::fabs((LD) ev[i] - lref[i]) / spread));
             }
-            l.i("asc", asc).arr("qdist", qd);
+            l.i("asc", asc).arr("qdist", qd).i("qspread", q(spread));
             // X = eigenvectors() if it has the documented shape, else the iterate block (friend access)
             const bool shape_ok = Xp.rows() == n && Xp.cols() == k;
             const Mat& X = shape_ok ? Xp : Xit;
